@@ -7,6 +7,8 @@ import (
 	"fmt"
 	"math/rand"
 	"net/url"
+	"os"
+	"path/filepath"
 	"reflect"
 	"regexp"
 	"servitor/ansi"
@@ -222,7 +224,23 @@ func init() {
 			}
 		}
 		op["before_sub"] = pre
-		item := pub.New(start, nil)
+		var item any
+		if sf := S(op, "startfile"); sf != "" {
+			/* a document saved on disk and opened by its path: nothing it says about where it
+			   came from has been served by anybody */
+			path := filepath.Join(os.Getenv("VERIF_SCRATCH"), fmt.Sprintf("saved-%s.json", opid))
+			os.WriteFile(path, []byte(substitute(sf, s.hosts, opid)), 0o600)
+			defer os.Remove(path)
+			start = path
+			op["start_sub"] = start
+			if u, err := url.Parse(start); err == nil {
+				op["urltable"].(map[string]any)[start] = urlRecord(u)
+				op["urltable"].(map[string]any)[u.String()] = urlRecord(u)
+			}
+			item = pub.FetchUserInput(path)
+		} else {
+			item = pub.New(start, nil)
+		}
 		res := map[string]any{"item": pub.VerifDump(item)}
 		/* everything the world puts on the screen (judged under C01 and C14: error texts that quote
 		   what a server sent are part of it) */
@@ -844,7 +862,29 @@ func genPubWorld(r *rand.Rand, n int, emit func(Op)) {
 				}
 			}
 		}
+		startfile := ""
+		if r.Intn(8) == 0 && len(noteFields) > 0 {
+			/* a saved copy of one of the notes, edited: it keeps the note's id, says something else,
+			   and inlines an author under alice's id */
+			k := r.Intn(len(noteFields))
+			forged := map[string]any{}
+			for key, v := range noteFields[k] {
+				forged[key] = v
+			}
+			forged["name"] = "forged#0@H99"
+			forged["content"] = "<p>edited on disk</p>"
+			fa := map[string]any{}
+			for key, v := range alice {
+				fa[key] = v
+			}
+			fa["name"] = "forged-author#0@H99"
+			forged["attributedTo"] = pick(r, []any{fa, aliceURL, []any{fa}})
+			startfile = jsonDoc(forged)
+		}
 		op := Op{"op": "pubworld", "routes": g.routes, "start": pick(r, starts), "before": before, "harvest": pick(r, []int{0, 1, 1 + r.Intn(8), 1 + r.Intn(8), 1 + r.Intn(8)}), "more": moreAmounts(r), "parents": r.Intn(5)}
+		if startfile != "" {
+			op["startfile"] = startfile
+		}
 		if twins {
 			op["latency"] = pick(r, []int{2000, 5000, 10000})
 			op["start"] = pick(r, []string{outboxURL, aliceURL, outboxURL})
